@@ -215,6 +215,39 @@ def posToXY (T : M3 K) (p : V3 K) : K × K := (V3.dot T.r0 p, V3.dot T.r1 p)
 
 def xyToPos (T : M3 K) (q : K × K) : V3 K := M3.mulVec (M3.inv T) ⟨q.1, q.2, 0⟩
 
+/-! API level: the default plotting axis and the `pos=` / `x=, y=` entry points of `E_gsf` / `delta` -/
+
+/-- `xvect=None` → `np.dot(a1vect, box.vects)`, i.e. the Cartesian `A1` (in BOTH directions). -/
+def xyDefaultX (A1 : V3 K) (xvect : Option (V3 K)) : V3 K := xvect.getD A1
+
+/-- `pos_to_xy(pos, xvect)`: `none` is the `ValueError` of the in-plane guard. -/
+def posToXYApi (A1 A2 : V3 K) (nn nx ny nz : K) (xvect : Option (V3 K)) (p : V3 K) : Option (K × K) :=
+  let X := xyDefaultX A1 xvect
+  let Nh := planeNormal A1 A2 nn
+  if xvectOk X Nh then some (posToXY (xyTransform X Nh nx ny nz) p) else none
+
+/-- `xy_to_pos(x, y, xvect)`. -/
+def xyToPosApi (A1 A2 : V3 K) (nn nx ny nz : K) (xvect : Option (V3 K)) (q : K × K) : Option (V3 K) :=
+  let X := xyDefaultX A1 xvect
+  let Nh := planeNormal A1 A2 nn
+  if xvectOk X Nh then some (xyToPos (xyTransform X Nh nx ny nz) q) else none
+
+/-- a query of `E_gsf` / `delta`: fractional (`a1=, a2=`), Cartesian (`pos=`) or plotting (`x=, y=, xvect=`). -/
+inductive Query (K : Type) where
+  | a12 (a : K × K)
+  | pos (p : V3 K)
+  | xy (q : K × K) (xvect : Option (V3 K))
+
+/-- the fractional coordinates a query is reduced to (`xy_to_a12`, `pos_to_a12`); `none` = refused. -/
+def Query.toA12? (A1 A2 : V3 K) (nn nx ny nz : K) : Query K → Option (K × K)
+  | .a12 a => some a
+  | .pos p => posToA12? A1 A2 p
+  | .xy q xv => (xyToPosApi A1 A2 nn nx ny nz xv q).bind (posToA12? A1 A2)
+
+/-- `E_gsf(**kwargs)` for any of the three kinds of query (`gam` is `E` on fractional coordinates). -/
+def EofQuery (gam : K → K → K) (A1 A2 : V3 K) (nn nx ny nz : K) (q : Query K) : Option K :=
+  (q.toA12? A1 A2 nn nx ny nz).map (fun a => gam a.1 a.2)
+
 /-! data-model record: energies are written divided by the unit factor `u` and read back times it -/
 
 structure GsfRecord (K : Type) where
@@ -294,12 +327,14 @@ def stressEnergy (full cdiff : Bool) (τ1 : V3 K) (x : List K) (d : List (V3 K))
     let dx := gridStep x
     mh * lsum (List.zipWith (fun (a b : V3 K) => V3.dot (-τ1) (V3.smul dx (a + b))) d (d.drop 1))
 
-/-- `surface_energy = Σ inner(ρ² Δx, β) / 4` (every row of `β` is contracted with `ρ²Δx`). -/
+/-- `surface_energy = Σ dot(ρ² Δx, β) / 4 = Σ_j β_lj / 4 Σ_i ρ_l[i]² Δx`: the squared density component `l`
+    is contracted with the FIRST index of `β` (row `l`), all columns `j` summed. -/
 def surfaceEnergy (cdiff : Bool) (β : M3 K) (x : List K) (d : List (V3 K)) : K :=
   let dx := gridStep x
   lsum ((disldensity cdiff x d).map (fun r =>
     let q : V3 K := ⟨r.x * r.x * dx, r.y * r.y * dx, r.z * r.z * dx⟩
-    V3.dot q β.r0 + V3.dot q β.r1 + V3.dot q β.r2)) / ((4 : Nat) : K)
+    let w := M3.vecMul q β
+    w.x + w.y + w.z)) / ((4 : Nat) : K)
 
 /-- one `α_m` contribution of `nonlocal_energy`: `Σ_i δ[i]·(δ[i] - ½(δ[i+m] + δ[i-m])) Δx`. -/
 def nonlocalTerm (dx : K) (m : Nat) (d : List (V3 K)) : K :=
@@ -339,6 +374,12 @@ def totalEnergy (lg : K → K) (gam : V3 K → K) (s : Settings K) (x : List K) 
     + nonlocalEnergy s.αs x d
     + surfaceEnergy s.cdiffsurface s.β x d
 
+/-- the six terms, by name, of an object with settings `s` (what `*_energy(x, disregistry)` return). -/
+def termsOf (lg : K → K) (gam : V3 K → K) (s : Settings K) (x : List K) (d : List (V3 K)) : List K :=
+  [misfitEnergy gam s.T x d, elasticEnergy lg s.pi s.Kt s.cdiffelastic x d,
+   longrangeEnergy s.pi s.logL s.Kt s.burgers, stressEnergy s.fullstress s.cdiffstress s.τ1 x d,
+   nonlocalEnergy s.αs x d, surfaceEnergy s.cdiffsurface s.β x d]
+
 /-! `solve`: the minimiser works on the interior x and z components only -/
 
 /-- `decompose`: `concatenate([d[1:-1, 0], d[1:-1, 2]])`. -/
@@ -355,6 +396,69 @@ def recompose (d13 : List K) (first last : V3 K) : List (V3 K) :=
 /-- the disregistry stored by `solve` for an optimiser result `res` started from `d`. -/
 def solveResult (res : List K) (d : List (V3 K)) : List (V3 K) :=
   recompose res (d.headD v3zero) (d.getLastD v3zero)
+
+/-! ### the SDVPN object: state, setters, `solve(**kwargs)`, `load` — the energies read the CURRENT state -/
+
+/-- state of an SDVPN object that the energy methods read. -/
+structure Obj (K : Type) where
+  s : Settings K
+  x : List K
+  d : List (V3 K)
+
+/-- keyword arguments of `solve` (`none` = not given = keep the current value); `res` is the optimiser
+    output (arbitrary). -/
+structure SolveKw (K : Type) where
+  x : Option (List K) := none
+  d : Option (List (V3 K)) := none
+  τ1 : Option (V3 K) := none
+  αs : Option (List K) := none
+  β : Option (M3 K) := none
+  logL : Option K := none
+  fullstress : Option Bool := none
+  cdiffelastic : Option Bool := none
+  cdiffsurface : Option Bool := none
+  cdiffstress : Option Bool := none
+
+inductive Op (K : Type) where
+  | setTau (τ1 : V3 K)
+  | setAlpha (αs : List K)
+  | setBeta (β : M3 K)
+  | setLogL (l : K)
+  | setFull (b : Bool)
+  | setCdE (b : Bool)
+  | setCdS (b : Bool)
+  | setCdT (b : Bool)
+  | solve (kw : SolveKw K) (res : List K)
+  | load (o : Obj K)
+
+/-- the "change attribute values if given" block of `solve`. -/
+def Obj.applyKw (o : Obj K) (kw : SolveKw K) : Obj K :=
+  { s := { o.s with
+      τ1 := kw.τ1.getD o.s.τ1, αs := kw.αs.getD o.s.αs, β := kw.β.getD o.s.β, logL := kw.logL.getD o.s.logL,
+      fullstress := kw.fullstress.getD o.s.fullstress, cdiffelastic := kw.cdiffelastic.getD o.s.cdiffelastic,
+      cdiffsurface := kw.cdiffsurface.getD o.s.cdiffsurface, cdiffstress := kw.cdiffstress.getD o.s.cdiffstress },
+    x := kw.x.getD o.x, d := kw.d.getD o.d }
+
+def Obj.apply (o : Obj K) : Op K → Obj K
+  | .setTau t => { o with s := { o.s with τ1 := t } }
+  | .setAlpha a => { o with s := { o.s with αs := a } }
+  | .setBeta b => { o with s := { o.s with β := b } }
+  | .setLogL l => { o with s := { o.s with logL := l } }
+  | .setFull b => { o with s := { o.s with fullstress := b } }
+  | .setCdE b => { o with s := { o.s with cdiffelastic := b } }
+  | .setCdS b => { o with s := { o.s with cdiffsurface := b } }
+  | .setCdT b => { o with s := { o.s with cdiffstress := b } }
+  | .solve kw res => let o' := o.applyKw kw; { o' with d := solveResult res o'.d }
+  | .load o' => o'
+
+def Obj.run (o : Obj K) (ops : List (Op K)) : Obj K := ops.foldl Obj.apply o
+
+/-- what the six `*_energy(x, d)` methods and `total_energy(x, d)` of the object return now. -/
+def Obj.terms (lg : K → K) (gam : V3 K → K) (o : Obj K) (x : List K) (d : List (V3 K)) : List K :=
+  termsOf lg gam o.s x d
+
+def Obj.total (lg : K → K) (gam : V3 K → K) (o : Obj K) (x : List K) (d : List (V3 K)) : K :=
+  totalEnergy lg gam o.s x d
 
 /-! ### analytic arctangent profile -/
 
